@@ -1123,3 +1123,27 @@ def rt1(ctx):
         r.report("RT-1|tone", fn_loc(rn), rn.path, "tone: writer appends tone.to_string() iff tone != 0 (%s); reader parses the digits into .tone (%s)" % (w_ok, r_ok))
     # which syllable the tone closes: the reader pushes the syllable when it meets the digits
     return r
+
+
+def rt2(ctx):
+    """the renderer ranks candidate base phones with a *stable* sort: equal distances keep the (sorted) table order, so
+    the spelling chosen among ties is the one the parser's left-to-right reading was tuned against"""
+    from facts import callee_path
+    r = RuleResult("RT-2", "the renderer's candidate ranking is a stable sort over the sorted cardinal table (ties keep table order)", floor=2)
+    lib = ctx.lib
+    n = 0
+    for fn in ("asca::seg::Segment::get_as_grapheme", "asca::seg::Segment::get_nearest_grapheme"):
+        b = ctx.fn(lib, fn)
+        for bi, t in b.calls():
+            cp = callee_path(t) or ""
+            if "::sort" not in cp:
+                continue
+            n += 1
+            stable = "unstable" not in cp
+            r.inst("%s ranks candidates with %s" % (fn.rsplit("::", 1)[-1], cp.rsplit("::", 1)[-1]), ":".join(t["loc"].split(":")[:2]), "ok" if stable else "report")
+            if not stable:
+                r.report("RT-2|%s" % fn, ":".join(t["loc"].split(":")[:2]), fn,
+                         "candidates with equal feature distance are ordered by an unstable sort: which base phone is tried first among ties is no longer the table order, and some of the other spellings do not parse back to the same segment")
+    if n < 2:
+        raise AnchorMissing("renderer: fewer than two candidate sorts found (%d)" % n)
+    return r
